@@ -7,6 +7,13 @@ set_option linter.unusedVariables false
 namespace Codec
 open Gen.Codec
 
+/-- closes `extractedBool args = decide (arithmetic fact)` whatever Boolean shape (`&&`, `||`, `!`, swapped operands)
+the Go condition was written in -/
+macro "gen_bool" : tactic =>
+  `(tactic| (rw [Bool.eq_iff_iff]
+             simp only [Bool.and_eq_true, Bool.or_eq_true, Bool.not_eq_true', decide_eq_true_eq, decide_eq_false_iff_not]
+             omega))
+
 theorem beBytes_length : ∀ w x, (beBytes w x).length = w := by
   intro w; induction w with
   | zero => intro x; rfl
@@ -97,11 +104,11 @@ theorem gen_salsaNonce (u : Nat) (h : 8 ≤ u) : salsaNonceLo u = ((u - 8 : Nat)
 theorem gen_sealNonce (ns : Nat) : sealNonceLo = 0 ∧ sealNonceHi ns = (ns : Int) := by
   unfold sealNonceLo sealNonceHi; omega
 theorem gen_emptyPayload (p : Nat) : emptyPayload p = decide (p = 0) := by
-  unfold emptyPayload; rw [Bool.eq_iff_iff]; simp only [decide_eq_true_eq]; omega
+  unfold emptyPayload; gen_bool
 theorem gen_padGuard (s : Nat) : padGuard s = decide (s < 5) := by
-  unfold padGuard; rw [Bool.eq_iff_iff]; simp only [decide_eq_true_eq]; omega
+  unfold padGuard; gen_bool
 theorem gen_bufTooSmall (b u : Nat) : bufTooSmall b u = decide (b < u) := by
-  unfold bufTooSmall; rw [Bool.eq_iff_iff]; simp only [decide_eq_true_eq]; omega
+  unfold bufTooSmall; gen_bool
 
 theorem hdrNF_length (f : Frame) (e : Nat) : (hdrNF f e).length = 14 := by
   simp [hdrNF, beBytes_length]
@@ -190,7 +197,7 @@ def obfNF (C : Crypto) (key : Bytes) (f : Frame) (bufLen padDraw : Nat) (rnd : B
   .ok (xor hdr (C.stream key (body.drop (body.length - 8)) 14) ++ body)
 
 theorem gen_nonceTooLong (ns : Nat) : nonceTooLong ns = decide (14 < ns) := by
-  unfold nonceTooLong; rw [Bool.eq_iff_iff]; simp only [decide_eq_true_eq]; omega
+  unfold nonceTooLong; gen_bool
 
 theorem obfQuery_nf (a : Aead) (H P R : Bytes) (hH : H.length = 14) (hn : a.nonceSize ≤ 14) (pad : Nat) (hp : pad ≤ R.length) :
     obfQuery a (H ++ P ++ R) P.length pad = some (H.take a.nonceSize, P ++ R.take pad) := by
@@ -286,16 +293,16 @@ def deobfNF (C : Crypto) (key msg : Bytes) : DOut :=
 theorem gen_deobf_consts : deobfHeaderHi = 14 ∧ deobfPldLo = 14 ∧ deobfSidLo = 0 ∧ deobfSidHi = 4 ∧ deobfSeqLo = 4 ∧
     deobfSeqHi = 12 ∧ deobfClosingIdx = 12 ∧ deobfExtraIdx = 13 ∧ openNonceLo = 0 := by decide
 theorem gen_deobfTooShort (n : Nat) : deobfTooShort n = decide (n < 22) := by
-  unfold deobfTooShort; rw [Bool.eq_iff_iff]; simp only [decide_eq_true_eq]; omega
+  unfold deobfTooShort; gen_bool
 theorem gen_deobfSalsaNonceLo (n : Nat) (h : 8 ≤ n) : deobfSalsaNonceLo n = ((n - 8 : Nat) : Int) := by
   unfold deobfSalsaNonceLo; omega
 theorem gen_deobfUseful (p e : Nat) : deobfUseful p e = (p : Int) - (e : Int) := by
   unfold deobfUseful; omega
 theorem gen_deobfExtraBad (p e : Nat) : deobfExtraBad ((p : Int) - (e : Int)) p = decide (p < e) := by
-  unfold deobfExtraBad; rw [Bool.eq_iff_iff]; simp only [Bool.or_eq_true, decide_eq_true_eq]; omega
+  unfold deobfExtraBad; gen_bool
 theorem gen_openNonceHi (ns : Nat) : openNonceHi ns = (ns : Int) := by unfold openNonceHi; omega
 theorem gen_plainWhole (e : Nat) : plainWholeCond e = decide (e = 0) := by
-  unfold plainWholeCond; rw [Bool.eq_iff_iff]; simp only [decide_eq_true_eq]; omega
+  unfold plainWholeCond; gen_bool
 theorem gen_outHi (u : Int) : plainOutHi u = u ∧ aeadOutHi u = u := by
   unfold plainOutHi aeadOutHi; omega
 
